@@ -155,3 +155,577 @@ Proof.
       rewrite <- Lsubs. fold subs. rewrite rd_submaps_pack by assumption.
       rewrite Mf, Mr. rewrite <- Hmux1. destruct m; cbn in *; subst; reflexivity.
 Qed.
+
+(* ------------------------------------------------------------------ *)
+(* residues                                                            *)
+(* ------------------------------------------------------------------ *)
+Lemma rd_wr_mod w v rest : rd w (wr w v ++ rest) = Some (v mod 2 ^ Z.of_nat w, rest).
+Proof.
+  unfold rd, wr. rewrite rd_acc_bits_of. f_equal. f_equal.
+  assert (0 < 2 ^ Z.of_nat w) by (apply Z.pow_pos_nonneg; lia).
+  rewrite Z2N.id by (apply Z.mod_pos_bound; lia). rewrite Z.mod_mod by lia. lia.
+Qed.
+
+Lemma rd_cascade_small c rest : 0 <= c < 8 -> wr 4 c ++ rest = wr 3 c ++ wr 1 0 ++ rest.
+Proof.
+  intros Hc. assert (c = 0 \/ c = 1 \/ c = 2 \/ c = 3 \/ c = 4 \/ c = 5 \/ c = 6 \/ c = 7) as H by lia.
+  destruct H as [->|[->|[->|[->|[->|[->|[->| ->]]]]]]]; reflexivity.
+Qed.
+
+Lemma ilog_small c : 0 <= c < 256 -> (ilog c >? 3) = (c >=? 8).
+Proof.
+  intros Hc.
+  assert (forallb (fun x => Bool.eqb (ilog x >? 3) (x >=? 8)) (map Z.of_nat (seq 0 256)) = true) as Hall by (vm_compute; reflexivity).
+  rewrite forallb_forall in Hall. specialize (Hall c).
+  assert (In c (map Z.of_nat (seq 0 256))) as Hin by (apply in_map_iff; exists (Z.to_nat c); split; [lia|apply in_seq; lia]).
+  apply Hall in Hin. apply eqb_prop in Hin. exact Hin.
+Qed.
+
+Lemma rd_cascade_pack : forall l rest, Forall (fun c => 0 <= c < 256) l ->
+  rd_cascade (length l) (flat_map pack_cascade l ++ rest) = Some (l, rest).
+Proof.
+  induction l as [|c r IH]; intros rest Hf; [reflexivity|].
+  inversion Hf as [|? ? Hc Hr]; subst. cbn [length rd_cascade flat_map]. unfold pack_cascade at 1.
+  rewrite ilog_small by exact Hc. destruct (c >=? 8) eqn:E.
+  - assoc. rewrite rd_wr_mod. rewrite rd_wr by (pow2; lia). cbn [Z.eqb Pos.eqb].
+    rewrite rd_wr by (pow2; rewrite Z.shiftr_div_pow2 by lia; change (2 ^ 3) with 8; lia).
+    rewrite IH by assumption. f_equal. f_equal. f_equal.
+    rewrite Z.shiftr_div_pow2 by lia. change (2 ^ Z.of_nat 3) with 8. change (2 ^ 3) with 8. lia.
+  - rewrite <- app_assoc. rewrite rd_cascade_small by lia. rewrite rd_wr by (pow2; lia). rewrite rd_wr by (pow2; lia).
+    cbn [Z.eqb Pos.eqb]. rewrite IH by assumption. reflexivity.
+Qed.
+
+Definition computed_partvals (books : list book) (r : residue) : option Z :=
+  if r_partitions r =? 1 then Some 1
+  else partvals_fuel 30 (b_dim (bk books (r_groupbook r))) (r_partitions r) (b_entries (bk books (r_groupbook r))) 1.
+
+Definition residue_ok (books : list book) (r : residue) : Prop :=
+  residue_wf books r /\ nbooks books <= 256 /\ r_type r < 65536 /\
+  r_begin r < 16777216 /\ r_end r < 16777216 /\ r_grouping r <= 16777216 /\
+  length (r_booklist r) = Z.to_nat (fold_left (fun a c => a + icount c) (r_secondstages r) 0) /\
+  computed_partvals books r = Some (r_partvals r).
+
+Lemma unpack_pack_residue books r rest : residue_ok books r ->
+  unpack_residue (r_type r) books (pack_residue_body r ++ rest) = Some (r, rest).
+Proof.
+  intros (Hwf & Hnb & Ht & Hb & He & Hg & Lbl & Hpv).
+  destruct Hwf as (Ht0 & Hb0 & He0 & Hg0 & Hp & Hgb & Hgd & Lss & Fss & Fbl & Hpvr).
+  unfold pack_residue_body, unpack_residue. assoc.
+  rewrite rd_wr by (pow2; lia). rewrite rd_wr by (pow2; lia). rewrite rd_wr by (pow2; lia).
+  rewrite rd_wr by (pow2; lia). rewrite rd_wr by (pow2; lia).
+  replace (Z.to_nat (r_partitions r - 1 + 1)) with (length (r_secondstages r)) by lia.
+  rewrite rd_cascade_pack by exact Fss.
+  rewrite <- Lbl.
+  assert (Forall (fun v => 0 <= v < 2 ^ Z.of_nat 8) (r_booklist r)) as Fb8.
+  { apply Forall_forall. intros b Hbk. rewrite Forall_forall in Fbl. specialize (Fbl b Hbk). unfold value_book_ok in Fbl. pow2. lia. }
+  rewrite rd_list_wr by exact Fb8.
+  destruct (r_groupbook r >=? nbooks books) eqn:E1; [lia|].
+  assert (existsb (fun b => (b >=? nbooks books) || (b_maptype (bk books b) =? 0) || (b_dim (bk books b) <? 1)) (r_booklist r) = false) as Ex.
+  { destruct (existsb _ (r_booklist r)) eqn:E; [|reflexivity]. apply existsb_exists in E. destruct E as [b [Hin Hbad]].
+    rewrite Forall_forall in Fbl. specialize (Fbl b Hin). unfold value_book_ok in Fbl. lia. }
+  rewrite Ex. destruct (b_dim (bk books (r_groupbook r)) <? 1) eqn:E2; [lia|].
+  unfold computed_partvals in Hpv. replace (r_partitions r - 1 + 1) with (r_partitions r) by lia.
+  rewrite Hpv.
+  destruct ((r_partitions r =? 1) && (1 >? b_entries (bk books (r_groupbook r)))) eqn:E3; [lia|].
+  replace (r_grouping r - 1 + 1) with (r_grouping r) by lia. destruct r; reflexivity.
+Qed.
+
+(* ------------------------------------------------------------------ *)
+(* floor 1                                                             *)
+(* ------------------------------------------------------------------ *)
+(* a subbook number is stored plus one in 8 bits: book 255 cannot be named as a subbook *)
+Lemma rd_subbooks_pack nb : nb <= 256 -> forall l rest, Forall (fun b => -1 <= b < nb /\ b < 255) l ->
+  rd_subbooks (length l) nb (flat_map (fun s => wr 8 (s + 1)) l ++ rest) = Some (l, rest).
+Proof.
+  intros Hnb. induction l as [|b r IH]; intros rest Hf; [reflexivity|].
+  inversion Hf; subst. cbn [length rd_subbooks flat_map]. assoc. rewrite rd_wr by (pow2; lia).
+  destruct (b + 1 - 1 >=? nb) eqn:E; [lia|]. rewrite IH by assumption. f_equal. f_equal. f_equal. lia.
+Qed.
+
+Definition class_ok (nb : Z) (c : fclass) : Prop := class_wf nb c /\ (c_subs c = 0 -> c_book c = 0) /\ Forall (fun b => b < 255) (c_subbook c).
+
+Lemma rd_classes_pack nb : nb <= 256 -> 0 < nb -> forall l rest, Forall (class_ok nb) l ->
+  rd_classes (length l) nb (flat_map pack_class l ++ rest) = Some (l, rest).
+Proof.
+  intros Hnb Hpos. induction l as [|c r IH]; intros rest Hf; [reflexivity|].
+  inversion Hf as [|? ? [Hwf [Hb0 F255]] Hr]; subst. destruct Hwf as (Hd & Hs & Hb & Lsb & Fsb0).
+  assert (Forall (fun b => -1 <= b < nb /\ b < 255) (c_subbook c)) as Fsb by (apply Forall_forall; intros x Hx; rewrite Forall_forall in Fsb0, F255; split; [apply Fsb0|apply F255]; exact Hx).
+  cbn [length rd_classes flat_map]. unfold pack_class at 1. assoc.
+  rewrite rd_wr by (pow2; lia). rewrite rd_wr by (pow2; lia).
+  destruct (c_subs c =? 0) eqn:E0.
+  - cbn [app]. destruct (0 >=? nb) eqn:E1; [lia|].
+    rewrite <- Lsb. rewrite rd_subbooks_pack by assumption. rewrite IH by assumption.
+    replace (c_dim c - 1 + 1) with (c_dim c) by lia. rewrite <- Hb0 by lia. destruct c; reflexivity.
+  - rewrite rd_wr by (pow2; lia). destruct (c_book c >=? nb) eqn:E1; [lia|].
+    rewrite <- Lsb. rewrite rd_subbooks_pack by assumption. rewrite IH by assumption.
+    replace (c_dim c - 1 + 1) with (c_dim c) by lia. destruct c; reflexivity.
+Qed.
+
+Lemma In_firstn_aux {A} n (l : list A) x : In x (firstn n l) -> In x l.
+Proof. intros H. rewrite <- (firstn_skipn n l). apply in_or_app. left. exact H. Qed.
+Lemma In_skipn_aux {A} n (l : list A) x : In x (skipn n l) -> In x l.
+Proof. intros H. rewrite <- (firstn_skipn n l). apply in_or_app. right. exact H. Qed.
+
+Fixpoint dims_sum (classes : list fclass) (pc : list Z) : Z :=
+  match pc with [] => 0 | c :: r => c_dim (cls classes c) + dims_sum classes r end.
+
+Lemma rd_posts_pack classes rb : forall pc count posts rest,
+  Forall (fun c => 0 <= c_dim (cls classes c)) pc ->
+  Z.of_nat (length posts) = dims_sum classes pc -> 0 <= count -> count + dims_sum classes pc <= VIF_POSIT ->
+  Forall (fun v => 0 <= v < 2 ^ Z.of_nat rb) posts ->
+  rd_posts pc classes rb count (flat_map (wr rb) posts ++ rest) = Some (posts, rest).
+Proof.
+  induction pc as [|c r IH]; intros count posts rest Hd Hl Hc Hsum Hp; cbn [rd_posts dims_sum] in *.
+  - destruct posts; [reflexivity|cbn in Hl; lia].
+  - inversion Hd as [|? ? Hd0 Hdr]; subst.
+    assert (0 <= dims_sum classes r) as Hnn by (clear -Hdr; induction r as [|x t IHt]; cbn; [lia|inversion Hdr; subst; specialize (IHt ltac:(assumption)); lia]).
+    destruct (count + c_dim (cls classes c) >? VIF_POSIT) eqn:E; [lia|].
+    set (d := Z.to_nat (c_dim (cls classes c))).
+    assert (posts = firstn d posts ++ skipn d posts) as Hsplit by (symmetry; apply firstn_skipn).
+    assert (length (firstn d posts) = d) as Lf by (rewrite firstn_length; lia).
+    rewrite Hsplit at 1. rewrite flat_map_app, <- app_assoc.
+    rewrite <- Lf at 1. rewrite rd_list_wr by (apply Forall_forall; intros x Hx; rewrite Forall_forall in Hp; apply Hp; eapply In_firstn_aux; exact Hx).
+    rewrite (IH (count + c_dim (cls classes c)) (skipn d posts) rest); [rewrite <- Hsplit; reflexivity|exact Hdr| | lia| lia| ].
+    + rewrite skipn_length. lia.
+    + apply Forall_forall. intros x Hx. rewrite Forall_forall in Hp. apply Hp. eapply In_skipn_aux; exact Hx.
+Qed.
+
+Definition floor1_ok (books : list book) (pc : list Z) (classes : list fclass) (mult rangebits : Z) (posts : list Z) : Prop :=
+  (length pc <= 31)%nat /\ Forall (fun c => 0 <= c < 16) pc /\
+  Z.of_nat (length classes) = zmax_list pc (-1) + 1 /\
+  Forall (class_ok (nbooks books)) classes /\ 0 < nbooks books <= 256 /\
+  1 <= mult <= 4 /\ 0 <= rangebits < 16 /\
+  Z.of_nat (length posts) = dims_sum classes pc /\ dims_sum classes pc <= VIF_POSIT /\
+  Forall (fun v => 0 <= v < 2 ^ rangebits) posts /\ nodupb (0 :: 2 ^ rangebits :: posts) = true.
+
+Lemma unpack_pack_floor1 books pc classes mult rangebits posts rest :
+  floor1_ok books pc classes mult rangebits posts ->
+  unpack_floor1 books (pack_floor1_body pc classes mult rangebits posts ++ rest) = Some (Floor1 pc classes mult rangebits posts, rest).
+Proof.
+  intros (Lpc & Fpc & Lcl & Fcl & Hnb & Hm & Hrb & Lp & Hsum & Fp & Hnd).
+  unfold pack_floor1_body, unpack_floor1. assoc.
+  rewrite rd_wr by (pow2; lia). rewrite Nat2Z.id.
+  rewrite rd_list_wr by (apply Forall_forall; intros c Hc; rewrite Forall_forall in Fpc; specialize (Fpc c Hc); pow2; lia).
+  replace (Z.to_nat (zmax_list pc (-1) + 1)) with (length classes) by lia.
+  rewrite rd_classes_pack by (lia || assumption).
+  rewrite rd_wr by (pow2; lia). rewrite rd_wr by (pow2; lia).
+  assert (forall c, 0 <= c_dim (cls classes c)) as Hdim.
+  { intros c. unfold cls. destruct (Nat.ltb (Z.to_nat c) (length classes)) eqn:El.
+    - apply Nat.ltb_lt in El. rewrite Forall_forall in Fcl. specialize (Fcl _ (nth_In classes {| c_dim := 0; c_subs := 0; c_book := 0; c_subbook := [] |} El)).
+      destruct Fcl as [[Hd _] _]. lia.
+    - apply Nat.ltb_ge in El. rewrite nth_overflow by exact El. cbn. lia. }
+  rewrite rd_posts_pack.
+  - rewrite Hnd. replace (mult - 1 + 1) with mult by lia. reflexivity.
+  - apply Forall_forall. intros c _. apply Hdim.
+  - exact Lp.
+  - lia.
+  - lia.
+  - rewrite Z2Nat.id by lia. exact Fp.
+Qed.
+
+(* ------------------------------------------------------------------ *)
+(* codebooks: the three encodings of the codeword lengths              *)
+(* ------------------------------------------------------------------ *)
+(* dense: 5 bits per entry *)
+Lemma rd_list_map_pred : forall l rest, Forall (fun v => 1 <= v <= 32) l ->
+  rd_list (length l) 5 (flat_map (fun v => wr 5 (v - 1)) l ++ rest) = Some (map (fun x => x - 1) l, rest).
+Proof.
+  induction l as [|v r IH]; intros rest Hf; [reflexivity|].
+  inversion Hf; subst. cbn [length rd_list flat_map map]. assoc. rewrite rd_wr by (pow2; lia). rewrite IH by assumption. reflexivity.
+Qed.
+(* sparse: a flag per entry *)
+Lemma rd_lengths_sparse_pack : forall l rest, Forall (fun v => 0 <= v <= 32) l ->
+  rd_lengths_sparse (length l) (flat_map (fun v => if v =? 0 then wr 1 0 else wr 1 1 ++ wr 5 (v - 1)) l ++ rest) = Some (l, rest).
+Proof.
+  induction l as [|v r IH]; intros rest Hf; [reflexivity|].
+  inversion Hf; subst. cbn [length rd_lengths_sparse flat_map]. destruct (v =? 0) eqn:E.
+  - assoc. rewrite rd_wr by (pow2; lia). cbn [Z.eqb Pos.eqb]. rewrite IH by assumption. f_equal. f_equal. f_equal. lia.
+  - assoc. rewrite rd_wr by (pow2; lia). cbn [Z.eqb Pos.eqb]. rewrite rd_wr by (pow2; lia). rewrite IH by assumption. f_equal. f_equal. f_equal. lia.
+Qed.
+
+(* ordered: run counts *)
+Fixpoint runs_of (cur cnt : Z) (l : list Z) : list Z :=
+  match l with
+  | [] => [cnt]
+  | x :: r => if x >? cur then cnt :: repeat 0 (Z.to_nat (x - cur - 1)) ++ runs_of x 1 r else runs_of cur (cnt + 1) r
+  end.
+Fixpoint encode_runs (entries assigned : Z) (runs : list Z) : bits :=
+  match runs with
+  | [] => []
+  | n :: t => wr (ilogn (entries - assigned)) n ++ encode_runs entries (assigned + n) t
+  end.
+Fixpoint expand (len : Z) (runs : list Z) : list Z :=
+  match runs with
+  | [] => []
+  | n :: t => repeat len (Z.to_nat n) ++ expand (len + 1) t
+  end.
+
+Lemma encode_runs_app entries : forall a b assigned, encode_runs entries assigned (a ++ b) = encode_runs entries assigned a ++ encode_runs entries (assigned + fold_right Z.add 0 a) b.
+Proof.
+  induction a as [|n t IH]; intros b assigned; cbn [app encode_runs fold_right]; [rewrite Z.add_0_r; reflexivity|].
+  rewrite IH, <- app_assoc. do 3 f_equal. lia.
+Qed.
+Lemma encode_zero_runs entries assigned k :
+  encode_runs entries assigned (repeat 0 k) = flat_map (fun _ : nat => wr (ilogn (entries - assigned)) 0) (seq 0 k).
+Proof.
+  assert (forall s, encode_runs entries assigned (repeat 0 k) = flat_map (fun _ : nat => wr (ilogn (entries - assigned)) 0) (seq s k)) as G.
+  { induction k as [|k IH]; intros s; cbn [repeat encode_runs seq flat_map]; [reflexivity|]. rewrite Z.add_0_r. f_equal. apply IH. }
+  apply G.
+Qed.
+Lemma sum_repeat0 k : fold_right Z.add 0 (repeat 0 k) = 0.
+Proof. induction k; cbn; lia. Qed.
+
+(* Lemma A: what the packer writes is the run encoding *)
+Lemma pack_runs_encode entries : forall l i count last, ordered_from last l = true ->
+  pack_ordered_runs entries l i count last = encode_runs entries count (runs_of last (i - count) l).
+Proof.
+  induction l as [|x r IH]; intros i count last Ho; cbn [pack_ordered_runs runs_of encode_runs ordered_from] in *.
+  - rewrite app_nil_r. reflexivity.
+  - destruct ((last =? 0) || (x <? last)) eqn:E0; [discriminate|].
+    destruct (x >? last) eqn:E.
+    + cbn [encode_runs]. rewrite <- app_assoc. f_equal.
+      rewrite encode_runs_app, sum_repeat0, Z.add_0_r. replace (count + (i - count)) with i by lia.
+      rewrite encode_zero_runs. f_equal. rewrite IH by exact Ho. replace (i + 1 - i) with 1 by lia. reflexivity.
+    + assert (x = last) by lia. subst x. cbn [app]. rewrite IH by exact Ho. replace (i + 1 - count) with (i - count + 1) by lia. reflexivity.
+Qed.
+
+(* Lemma C: expanding the runs gives the sorted list back *)
+Lemma expand_runs : forall l cur cnt, 0 <= cnt -> ordered_from cur l = true -> 1 <= cur ->
+  expand cur (runs_of cur cnt l) = repeat cur (Z.to_nat cnt) ++ l.
+Proof.
+  induction l as [|x r IH]; intros cur cnt Hc Ho Hcur; cbn [runs_of ordered_from] in *.
+  - cbn. rewrite app_nil_r. reflexivity.
+  - destruct ((cur =? 0) || (x <? cur)) eqn:E0; [discriminate|].
+    destruct (x >? cur) eqn:E.
+    + cbn [expand]. f_equal.
+      assert (forall k len t, expand len (repeat 0 k ++ t) = expand (len + Z.of_nat k) t) as Hz.
+      { induction k as [|k IHk]; intros len t; cbn [repeat app expand]; [f_equal; lia|]. cbn. rewrite IHk. f_equal. lia. }
+      rewrite Hz. replace (cur + 1 + Z.of_nat (Z.to_nat (x - cur - 1))) with x by lia.
+      rewrite IH by (lia || assumption). reflexivity.
+    + assert (x = cur) by lia. subst x. rewrite IH by (lia || assumption).
+      replace (Z.to_nat (cnt + 1)) with (S (Z.to_nat cnt)) by lia. cbn [repeat]. change (cur :: repeat cur (Z.to_nat cnt) ++ r) with ((cur :: repeat cur (Z.to_nat cnt)) ++ r). rewrite repeat_cons, <- app_assoc. reflexivity.
+Qed.
+
+Lemma runs_sum : forall l cur cnt, fold_right Z.add 0 (runs_of cur cnt l) = cnt + Z.of_nat (length l).
+Proof.
+  induction l as [|x r IH]; intros cur cnt; cbn [runs_of fold_right length]; [lia|].
+  destruct (x >? cur).
+  - cbn [fold_right]. rewrite fold_right_app. rewrite IH.
+    assert (forall k a, fold_right Z.add a (repeat 0 k) = a) as Hz by (induction k; intros; cbn; [reflexivity|rewrite IHk; lia]).
+    rewrite Hz. lia.
+  - rewrite IH. lia.
+Qed.
+
+(* plausibility of a run: n codewords of length len need n - 1 < 2^len (the check of the unpacker) *)
+Fixpoint runs_okb (len : Z) (runs : list Z) : bool :=
+  match runs with
+  | [] => true
+  | n :: t => (len <=? 32) && ((n <=? 0) || (Z.shiftr (n - 1) (len - 1) <=? 1)) && runs_okb (len + 1) t
+  end.
+
+Definition last_pos (runs : list Z) : Prop := 0 < last runs 0.
+
+Lemma ilog_fuel_bound : forall ff y, 0 <= y -> y < 2 ^ Z.of_nat ff -> y < 2 ^ ilog_fuel ff y /\ 0 <= ilog_fuel ff y.
+Proof.
+  induction ff as [|f' IHf]; intros y Hy Hb; cbn [ilog_fuel].
+  - cbn in Hb. assert (y = 0) by lia. subst. cbn. lia.
+  - destruct (y <=? 0) eqn:E0; [assert (y = 0) by lia; subst; cbn; lia|].
+    rewrite Nat2Z.inj_succ, Z.pow_succ_r in Hb by lia.
+    destruct (IHf (y / 2) ltac:(apply Z.div_pos; lia) ltac:(apply Z.div_lt_upper_bound; lia)) as [A B].
+    split; [|lia]. rewrite Z.pow_add_r by lia. change (2 ^ 1) with 2. lia.
+Qed.
+Lemma ilogn_bound x : 0 <= x < 16777216 -> x < 2 ^ Z.of_nat (ilogn x).
+Proof.
+  intros Hx. unfold ilogn, ilog. destruct (x <? 0) eqn:E; [lia|].
+  destruct (ilog_fuel_bound 40%nat x ltac:(lia) ltac:(change (2 ^ Z.of_nat 40) with 1099511627776; lia)) as [A B].
+  rewrite Z2Nat.id by exact B. exact A.
+Qed.
+
+(* Lemma B: the unpacker's loop reads the run encoding back *)
+Lemma rd_ordered_runs entries : forall runs fuel i len rest,
+  (length runs < fuel)%nat -> Forall (fun n => 0 <= n) runs ->
+  fold_right Z.add 0 runs = entries - i -> 0 <= i -> runs <> [] -> last_pos runs ->
+  runs_okb len runs = true -> entries < 16777216 ->
+  rd_ordered fuel entries i len (encode_runs entries i runs ++ rest) = Some (expand len runs, rest).
+Proof.
+  induction runs as [|n t IH]; intros fuel i len rest Hfu Hnn Hsum Hi Hne Hlast Hok He; [congruence|].
+  destruct fuel as [|f]; [cbn in Hfu; lia|].
+  cbn [rd_ordered encode_runs expand]. inversion Hnn as [|? ? Hn Hnt]; subst. cbn [fold_right] in Hsum.
+  assert (0 <= fold_right Z.add 0 t) as Hts by (clear -Hnt; induction t; cbn; [lia|inversion Hnt; subst; specialize (IHt ltac:(assumption)); lia]).
+  assert (0 < n + fold_right Z.add 0 t) as Hpos.
+  { unfold last_pos in Hlast. clear -Hlast Hn Hnt Hts. revert n Hn Hlast. induction t as [|m u IHu]; intros n Hn Hlast; cbn in *; [lia|].
+    inversion Hnt; subst. assert (0 <= fold_right Z.add 0 u) by (clear -H2; induction u; cbn; [lia|inversion H2; subst; specialize (IHu ltac:(assumption)); lia]).
+    destruct u as [|k w]; [cbn in *; lia|]. specialize (IHu H2 ltac:(cbn in *; lia) m H1 Hlast). cbn in *. lia. }
+  destruct (i >=? entries) eqn:Ei; [lia|].
+  assoc.
+  assert (n < 2 ^ Z.of_nat (ilogn (entries - i))) as Hw.
+  { assert (n <= entries - i) by lia.
+    pose proof (ilogn_bound (entries - i) ltac:(lia)) as G.
+    lia. }
+  rewrite rd_wr by lia.
+  cbn [runs_okb] in Hok. apply andb_true_iff in Hok. destruct Hok as [Hok Hokt]. apply andb_true_iff in Hok. destruct Hok as [Hlen Hnum].
+  destruct ((len >? 32) || (n >? entries - i) || ((n >? 0) && (Z.shiftr (n - 1) (len - 1) >? 1))) eqn:Ec; [lia|].
+  destruct t as [|m u].
+  - (* last run: i + n = entries *)
+    cbn [encode_runs expand app fold_right] in *. destruct f as [|f']; [cbn in Hfu; lia|]. cbn [rd_ordered].
+    destruct (i + n >=? entries) eqn:E2; [rewrite app_nil_r; reflexivity|lia].
+  - rewrite (IH f (i + n) (len + 1) rest); [reflexivity|cbn in *; lia|exact Hnt|cbn [fold_right] in *; lia|lia|discriminate| |exact Hokt|exact He].
+    unfold last_pos in *. cbn [last] in *. exact Hlast.
+Qed.
+
+Lemma wr_length w v : length (wr w v) = w.
+Proof. unfold wr. generalize (Z.to_N (v mod 2 ^ Z.of_nat w)). induction w as [|w IH]; intros n; cbn; [reflexivity|f_equal; apply IH]. Qed.
+
+Lemma runs_nonneg : forall l cur cnt, 0 <= cnt -> Forall (fun n => 0 <= n) (runs_of cur cnt l).
+Proof.
+  induction l as [|x r IH]; intros cur cnt Hc; cbn [runs_of]; [constructor; [lia|constructor]|].
+  destruct (x >? cur).
+  - constructor; [lia|]. apply Forall_app. split; [apply Forall_forall; intros y Hy; apply repeat_spec in Hy; lia|apply IH; lia].
+  - apply IH. lia.
+Qed.
+Lemma runs_of_nonempty : forall l cur cnt, runs_of cur cnt l <> [].
+Proof. induction l as [|x r IH]; intros cur cnt; cbn [runs_of]; [discriminate|]. destruct (x >? cur); [discriminate|apply IH]. Qed.
+Lemma last_app_ne {A} (d : A) : forall a b, b <> [] -> last (a ++ b) d = last b d.
+Proof.
+  induction a as [|x a IH]; intros b Hb; [reflexivity|]. cbn [app]. specialize (IH b Hb).
+  destruct (a ++ b) eqn:E; [destruct a; [cbn in E; congruence|discriminate]|]. cbn [last]. exact IH.
+Qed.
+Lemma runs_last_pos : forall l cur cnt, 1 <= cnt -> last_pos (runs_of cur cnt l).
+Proof.
+  unfold last_pos. induction l as [|x r IH]; intros cur cnt Hc; cbn [runs_of]; [cbn; lia|].
+  destruct (x >? cur).
+  - specialize (IH x 1 ltac:(lia)).
+    pose proof (runs_of_nonempty r x 1) as Hne.
+    change (cnt :: repeat 0 (Z.to_nat (x - cur - 1)) ++ runs_of x 1 r) with ((cnt :: repeat 0 (Z.to_nat (x - cur - 1))) ++ runs_of x 1 r).
+    rewrite last_app_ne by exact Hne. exact IH.
+  - apply IH. lia.
+Qed.
+Lemma runs_okb_length : forall runs len, runs_okb len runs = true -> Z.of_nat (length runs) <= Z.max 0 (33 - len).
+Proof.
+  induction runs as [|n t IH]; intros len H; cbn [runs_okb length] in *; [lia|].
+  apply andb_true_iff in H. destruct H as [H Ht]. apply andb_true_iff in H. destruct H as [Hl _].
+  specialize (IH (len + 1) Ht). lia.
+Qed.
+
+Definition quantvals_of (b : book) : Z :=
+  if b_maptype b =? 1 then (if b_dim b =? 0 then 0 else quantvals1 (b_entries b) (b_dim b)) else b_entries b * b_dim b.
+
+Definition book_ok (b : book) : Prop :=
+  0 <= b_dim b < 65536 /\ 0 <= b_entries b < 16777216 /\ ilog (b_dim b) + ilog (b_entries b) <= 24 /\
+  Z.of_nat (length (b_lengths b)) = b_entries b /\ Forall (fun l => 0 <= l <= 32) (b_lengths b) /\
+  (* the ordered form is chosen by the packer: then the first length is at least 1 and every run is plausible *)
+  (is_ordered (b_lengths b) = true ->
+     1 <= hd 1 (b_lengths b) /\ runs_okb (hd 1 (b_lengths b)) (runs_of (hd 1 (b_lengths b)) 1 (tl (b_lengths b))) = true) /\
+  (b_maptype b = 0 /\ b_qmin b = 0 /\ b_qdelta b = 0 /\ b_qquant b = 0 /\ b_qseq b = 0 /\ b_quantlist b = [] \/
+   (b_maptype b = 1 \/ b_maptype b = 2) /\ 0 <= b_qmin b < 4294967296 /\ 0 <= b_qdelta b < 4294967296 /\
+   1 <= b_qquant b <= 16 /\ (b_qseq b = 0 \/ b_qseq b = 1) /\
+   Z.of_nat (length (b_quantlist b)) = quantvals_of b /\ Forall (fun q => 0 <= q < 2 ^ b_qquant b) (b_quantlist b)).
+
+Lemma flat_map_length_const {A} (f : A -> bits) k : (forall x, length (f x) = k) -> forall l, length (flat_map f l) = (k * length l)%nat.
+Proof. intros Hk. induction l as [|x r IH]; cbn; [lia|]. rewrite app_length, Hk, IH. lia. Qed.
+
+Lemma unpack_pack_lengths entries lens rest :
+  Z.of_nat (length lens) = entries -> 0 <= entries < 16777216 -> Forall (fun l => 0 <= l <= 32) lens ->
+  (is_ordered lens = true -> 1 <= hd 1 lens /\ runs_okb (hd 1 lens) (runs_of (hd 1 lens) 1 (tl lens)) = true) ->
+  (8 <= length rest)%nat ->
+  (let? (ordered, r3) := rd 1 (pack_lengths entries lens ++ rest) in
+   (if ordered =? 0 then
+      let? (unused, r) := rd 1 r3 in
+      if (entries * (if unused =? 1 then 1 else 5) + 7) / 8 >? bytes_left r then None
+      else if unused =? 1 then rd_lengths_sparse (Z.to_nat entries) r
+      else let? (l, r') := rd_list (Z.to_nat entries) 5 r in Some (map (fun x => x + 1) l, r')
+    else let? (l0, r) := rd 5 r3 in rd_ordered 40 entries 0 (l0 + 1) r)) = Some (lens, rest).
+Proof.
+  intros Hl He Hf Hord Hrest. unfold pack_lengths.
+  destruct (is_ordered lens) eqn:Eo.
+  - destruct lens as [|l0 r]; [discriminate|]. specialize (Hord eq_refl). cbn [hd tl] in Hord. destruct Hord as [Hl0 Hok].
+    inversion Hf as [|? ? Hl0r Hfr]; subst. assoc. rewrite rd_wr by (pow2; lia). cbn [Z.eqb Pos.eqb].
+    rewrite rd_wr by (pow2; lia). replace (l0 - 1 + 1) with l0 by lia.
+    cbn [is_ordered] in Eo. rewrite pack_runs_encode by exact Eo. replace (1 - 0) with 1 by lia.
+    rewrite rd_ordered_runs.
+    + rewrite expand_runs by (lia || assumption). reflexivity.
+    + pose proof (runs_okb_length _ _ Hok). lia.
+    + apply runs_nonneg. lia.
+    + rewrite runs_sum. cbn [length] in *. lia.
+    + lia.
+    + apply runs_of_nonempty.
+    + apply runs_last_pos. lia.
+    + exact Hok.
+    + lia.
+  - assoc. rewrite rd_wr by (pow2; lia). cbn [Z.eqb Pos.eqb].
+    destruct (existsb (fun l => l =? 0) lens) eqn:Ex.
+    + (* sparse *)
+      assoc. rewrite rd_wr by (pow2; lia). cbn [Z.eqb Pos.eqb].
+      set (body := flat_map (fun l => if l =? 0 then wr 1 0 else wr 1 1 ++ wr 5 (l - 1)) lens).
+      assert (length lens <= length body)%nat as Lb.
+      { unfold body. clear. induction lens as [|x r IH]; cbn [flat_map length]; [lia|]. rewrite app_length. destruct (x =? 0); rewrite ?app_length, ?wr_length; lia. }
+      destruct ((entries * 1 + 7) / 8 >? bytes_left (body ++ rest)) eqn:Eb.
+      { exfalso. unfold bytes_left in Eb. rewrite app_length in Eb. lia. }
+      replace (Z.to_nat entries) with (length lens) by lia. unfold body. apply rd_lengths_sparse_pack. exact Hf.
+    + (* dense *)
+      assert (Forall (fun v => 1 <= v <= 32) lens) as Hf1.
+      { apply Forall_forall. intros v Hv. rewrite Forall_forall in Hf. specialize (Hf v Hv).
+        destruct (v =? 0) eqn:E; [|lia]. exfalso. assert (existsb (fun l => l =? 0) lens = true) by (apply existsb_exists; exists v; split; assumption). congruence. }
+      assoc. rewrite rd_wr by (pow2; lia). cbn [Z.eqb Pos.eqb].
+      set (body := flat_map (fun l => wr 5 (l - 1)) lens).
+      assert (length body = (5 * length lens)%nat) as Lb by (unfold body; apply flat_map_length_const; intros; apply wr_length).
+      destruct ((entries * 5 + 7) / 8 >? bytes_left (body ++ rest)) eqn:Eb.
+      { exfalso. unfold bytes_left in Eb. rewrite app_length in Eb. lia. }
+      replace (Z.to_nat entries) with (length lens) by lia. unfold body. rewrite rd_list_map_pred by exact Hf1.
+      rewrite map_map. f_equal. f_equal. rewrite <- (map_id lens) at 2. apply map_ext. intros; lia.
+Qed.
+
+Lemma unpack_pack_book b rest : book_ok b -> (8 <= length rest)%nat ->
+  unpack_book (pack_book b ++ rest) = Some (b, rest).
+Proof.
+  intros (Hd & He & Hil & Ll & Fl & Hord & Hq) Hrest.
+  unfold pack_book, unpack_book. assoc.
+  rewrite rd_wr by (pow2; lia). cbn [Z.eqb Pos.eqb negb].
+  rewrite rd_wr by (pow2; lia). rewrite rd_wr by (pow2; lia).
+  destruct (ilog (b_dim b) + ilog (b_entries b) >? 24) eqn:Ei; [lia|].
+  (* the lengths, whatever their encoding; what follows is at least the 4-bit map type and the rest *)
+  set (tail := wr 4 (b_maptype b) ++
+               (if (b_maptype b =? 1) || (b_maptype b =? 2)
+                then wr 32 (b_qmin b) ++ wr 32 (b_qdelta b) ++ wr 4 (b_qquant b - 1) ++ wr 1 (b_qseq b) ++
+                     flat_map (fun q => wr (Z.to_nat (b_qquant b)) q) (b_quantlist b)
+                else []) ++ rest).
+  assert (8 <= length tail)%nat as Ltail by (unfold tail; rewrite !app_length, wr_length; lia).
+  pose proof (unpack_pack_lengths (b_entries b) (b_lengths b) tail Ll He Fl Hord Ltail) as HL.
+  destruct (rd 1 (pack_lengths (b_entries b) (b_lengths b) ++ tail)) as [[ordered r3]|] eqn:E1; [|discriminate HL].
+  rewrite HL. clear HL E1.
+  unfold tail. assoc.
+  destruct Hq as [(Hm & Hq1 & Hq2 & Hq3 & Hq4 & Hq5)|(Hm & Hq1 & Hq2 & Hq3 & Hq4 & Lq & Fq)].
+  - rewrite Hm. rewrite rd_wr by (pow2; lia). cbn [Z.eqb orb app]. destruct b; cbn in *; subst; reflexivity.
+  - rewrite rd_wr by (pow2; lia).
+    assert ((b_maptype b =? 0) = false) as E0 by lia. rewrite E0.
+    assert ((b_maptype b =? 1) || (b_maptype b =? 2) = true) as E12 by lia. rewrite E12. assoc.
+    rewrite rd_wr by (pow2; lia). rewrite rd_wr by (pow2; lia). rewrite rd_wr by (pow2; lia). rewrite rd_wr by (pow2; lia).
+    replace (b_qquant b - 1 + 1) with (b_qquant b) by lia.
+    fold (quantvals_of b). 
+    set (qbody := flat_map (fun q => wr (Z.to_nat (b_qquant b)) q) (b_quantlist b)).
+    assert (length qbody = (Z.to_nat (b_qquant b) * length (b_quantlist b))%nat) as Lqb by (unfold qbody; apply flat_map_length_const; intros; apply wr_length).
+    assert (0 <= quantvals_of b) as Hqv by lia.
+    destruct ((quantvals_of b * b_qquant b + 7) / 8 >? bytes_left (qbody ++ rest)) eqn:Eb.
+    { exfalso. unfold bytes_left in Eb. rewrite app_length in Eb. nia. }
+    replace (Z.to_nat (quantvals_of b)) with (length (b_quantlist b)) by lia.
+    unfold qbody. rewrite rd_list_wr by (rewrite Z2Nat.id by lia; exact Fq).
+    destruct b; cbn in *; subst; reflexivity.
+Qed.
+
+(* ------------------------------------------------------------------ *)
+(* the whole set-up header                                             *)
+(* ------------------------------------------------------------------ *)
+Lemma pack_book_long b tl : (8 <= length (pack_book b ++ tl))%nat.
+Proof. unfold pack_book. rewrite !app_length, wr_length. lia. Qed.
+
+Lemma rd_books_pack : forall l rest, Forall book_ok l -> (8 <= length rest)%nat ->
+  rd_books (length l) (flat_map pack_book l ++ rest) = Some (l, rest).
+Proof.
+  induction l as [|b r IH]; intros rest Hf Hr; [reflexivity|].
+  inversion Hf; subst. cbn [length rd_books flat_map]. rewrite <- app_assoc.
+  rewrite unpack_pack_book; [|assumption|].
+  - rewrite IH by assumption. reflexivity.
+  - destruct r as [|b2 r2]; [exact Hr|]. cbn [flat_map]. rewrite <- app_assoc. apply pack_book_long.
+Qed.
+
+Definition floor_ok (books : list book) (f : Setup.floor) : Prop :=
+  match f with
+  | Floor0 _ _ _ _ _ _ => False                       (* the encoder has no packer for floor 0 *)
+  | Floor1 pc classes mult rb posts => floor1_ok books pc classes mult rb posts
+  end.
+
+Lemma rd_floors_pack books : forall l rest, Forall (floor_ok books) l ->
+  rd_floors (length l) books (flat_map pack_floor l ++ rest) = Some (l, rest).
+Proof.
+  induction l as [|f r IH]; intros rest Hf; [reflexivity|].
+  inversion Hf as [|? ? Hok Hr]; subst. destruct f as [o ra bm ab ad bl|pc cl mu rb po]; [destruct Hok|].
+  cbn [length rd_floors flat_map pack_floor]. assoc. rewrite rd_wr by (pow2; lia).
+  change (1 >=? VI_FLOORB) with false. change (1 =? 0) with false. cbv iota.
+  rewrite unpack_pack_floor1 by exact Hok. rewrite IH by assumption. reflexivity.
+Qed.
+
+Lemma rd_residues_pack books : forall l rest, Forall (fun r => residue_ok books r /\ r_type r < VI_RESB) l ->
+  rd_residues (length l) books (flat_map pack_residue l ++ rest) = Some (l, rest).
+Proof.
+  induction l as [|x r IH]; intros rest Hf; [reflexivity|].
+  inversion Hf as [|? ? [Hok Ht] Hr]; subst. cbn [length rd_residues flat_map]. unfold pack_residue at 1. assoc.
+  assert (0 <= r_type x) as Ht0 by (destruct Hok as [Hwf _]; destruct Hwf as [H0 _]; exact H0).
+  rewrite rd_wr by (pow2; unfold VI_RESB in Ht; lia).
+  destruct (r_type x >=? VI_RESB) eqn:E; [lia|].
+  rewrite unpack_pack_residue by exact Hok. rewrite IH by assumption. reflexivity.
+Qed.
+
+Lemma rd_maps_pack channels floors residues : forall l rest, Forall (mapping_ok channels floors residues) l ->
+  rd_maps (length l) channels floors residues (flat_map (pack_mapping channels) l ++ rest) = Some (l, rest).
+Proof.
+  induction l as [|m r IH]; intros rest Hf; [reflexivity|].
+  inversion Hf; subst. cbn [length rd_maps flat_map]. unfold pack_mapping at 1. assoc. rewrite rd_wr by (pow2; lia).
+  change (0 >=? VI_MAPB) with false. cbv iota.
+  rewrite unpack_pack_mapping by assumption. rewrite IH by assumption. reflexivity.
+Qed.
+
+Definition setup_ok (channels : Z) (s : setup) : Prop :=
+  (1 <= length (s_books s) <= 256)%nat /\ Forall book_ok (s_books s) /\
+  (1 <= length (s_floors s) <= 64)%nat /\ Forall (floor_ok (s_books s)) (s_floors s) /\
+  (1 <= length (s_residues s) <= 64)%nat /\ Forall (fun r => residue_ok (s_books s) r /\ r_type r < VI_RESB) (s_residues s) /\
+  (1 <= length (s_maps s) <= 64)%nat /\
+  Forall (mapping_ok channels (Z.of_nat (length (s_floors s))) (Z.of_nat (length (s_residues s)))) (s_maps s) /\
+  (1 <= length (s_modes s) <= 64)%nat /\ Forall (mode_ok (Z.of_nat (length (s_maps s)))) (s_modes s).
+
+(* what the parser reads from the packed set-up is the set-up *)
+Theorem unpack_pack_setup channels s pad : setup_ok channels s -> unpack_setup channels (pack_setup channels s ++ pad) = Some s.
+Proof.
+  intros (Lb & Fb & Lf & Ff & Lr & Fr & Lm & Fm & Lmo & Fmo).
+  unfold pack_setup, unpack_setup. assoc.
+  rewrite rd_wr by (pow2; lia).
+  replace (Z.to_nat (Z.of_nat (length (s_books s)) - 1 + 1)) with (length (s_books s)) by lia.
+  rewrite rd_books_pack by (try assumption; rewrite !app_length, !wr_length; lia).
+  rewrite rd_wr by (pow2; lia). change (Z.to_nat (0 + 1)) with 1%nat. cbn [rd_times].
+  rewrite rd_wr by (pow2; lia). change (0 >=? VI_TIMEB) with false. cbv iota.
+  rewrite rd_wr by (pow2; lia).
+  replace (Z.to_nat (Z.of_nat (length (s_floors s)) - 1 + 1)) with (length (s_floors s)) by lia.
+  rewrite rd_floors_pack by assumption.
+  rewrite rd_wr by (pow2; lia).
+  replace (Z.to_nat (Z.of_nat (length (s_residues s)) - 1 + 1)) with (length (s_residues s)) by lia.
+  rewrite rd_residues_pack by assumption.
+  rewrite rd_wr by (pow2; lia).
+  replace (Z.to_nat (Z.of_nat (length (s_maps s)) - 1 + 1)) with (length (s_maps s)) by lia.
+  rewrite rd_maps_pack by assumption.
+  rewrite rd_wr by (pow2; lia).
+  replace (Z.to_nat (Z.of_nat (length (s_modes s)) - 1 + 1)) with (length (s_modes s)) by lia.
+  rewrite rd_modes_pack by (try assumption; lia).
+  rewrite rd_wr by (pow2; lia). cbn [Z.eqb Pos.eqb]. destruct s; reflexivity.
+Qed.
+
+(* identification header *)
+Definition ident_ok (i : ident) : Prop :=
+  1 <= i_channels i <= 255 /\ 1 <= i_rate i < 4294967296 /\
+  -2147483648 <= i_upper i < 2147483648 /\ -2147483648 <= i_nominal i < 2147483648 /\ -2147483648 <= i_lower i < 2147483648 /\
+  (exists a, 6 <= a <= 13 /\ i_bs0 i = 2 ^ a) /\ (exists b, 6 <= b <= 13 /\ i_bs1 i = 2 ^ b) /\ i_bs0 i <= i_bs1 i.
+
+Lemma ilog_pow2m1 a : 6 <= a <= 13 -> ilog (2 ^ a - 1) = a.
+Proof.
+  intros Ha. assert (a = 6 \/ a = 7 \/ a = 8 \/ a = 9 \/ a = 10 \/ a = 11 \/ a = 12 \/ a = 13) as H by lia.
+  destruct H as [->|[->|[->|[->|[->|[->|[->| ->]]]]]]]; reflexivity.
+Qed.
+Lemma wr_s32 v rest : -2147483648 <= v < 2147483648 -> rd 32 (wr 32 v ++ rest) = Some (v mod 4294967296, rest).
+Proof. intros _. rewrite rd_wr_mod. reflexivity. Qed.
+Lemma s32_mod v : -2147483648 <= v < 2147483648 -> s32 (v mod 4294967296) = v.
+Proof. intros Hv. unfold s32. destruct (v mod 4294967296 <? 2147483648) eqn:E; lia. Qed.
+
+Theorem unpack_pack_ident i pad : ident_ok i -> unpack_ident (pack_ident i ++ pad) = (HOk, Some i).
+Proof.
+  intros (Hc & Hr & Hu & Hn & Hl & (a & Ha & Ea) & (b & Hb & Eb) & Hle).
+  unfold pack_ident, unpack_ident. assoc.
+  rewrite rd_wr by (pow2; lia). cbn [Z.eqb negb].
+  rewrite rd_wr by (pow2; lia). rewrite rd_wr by (pow2; lia).
+  rewrite wr_s32 by exact Hu. rewrite wr_s32 by exact Hn. rewrite wr_s32 by exact Hl.
+  rewrite Ea, Eb, !ilog_pow2m1 by assumption.
+  rewrite rd_wr by (pow2; lia). rewrite rd_wr by (pow2; lia). rewrite rd_wr by (pow2; lia).
+  rewrite !s32_mod by assumption.
+  assert (2 ^ a <= 2 ^ b) as Hab by lia.
+  assert (64 <= 2 ^ a) by (change 64 with (2 ^ 6); apply Z.pow_le_mono_r; lia).
+  assert (2 ^ b <= 8192) by (change 8192 with (2 ^ 13); apply Z.pow_le_mono_r; lia).
+  destruct ((i_rate i <? 1) || (i_channels i <? 1) || (2 ^ a <? 64) || (2 ^ b <? 2 ^ a) || (2 ^ b >? 8192) || negb (1 =? 1)) eqn:E; [cbn [Z.eqb Pos.eqb negb] in E; lia|].
+  rewrite <- Ea, <- Eb. destruct i; reflexivity.
+Qed.
